@@ -112,6 +112,12 @@ def check_routing(ctx, num=1):
         if lp is not None and isinstance(lp.target, ast.Name) and norm.U(lp.iter) in ("range(self.num_pools)", "range(len(self.pools))"):
             idx, ok_loop = lp.target.id, True
         recv_ok = ok_loop and norm.U(c.func.value) == f"self.pools[{idx}]"
+        if lp is not None and isinstance(lp.target, ast.Tuple) and len(lp.target.elts) == 2 and all(isinstance(x, ast.Name) for x in lp.target.elts) \
+                and norm.U(lp.iter) == "enumerate(self.pools)":
+            # for i, pool in enumerate(self.pools): pool.run_one_tick(..)   — the same pairs (index, self.pools[index]), all of them, in order
+            idx, ok_loop = lp.target.elts[0].id, True
+            recv_ok = norm.U(c.func.value) in (lp.target.elts[1].id, f"self.pools[{idx}]") and not any(
+                isinstance(x, ast.Name) and x.id in (idx, lp.target.elts[1].id) and isinstance(x.ctx, ast.Store) for b in lp.body for x in ast.walk(b))
         ctx.ob(num, "K6", "commands are routed by a loop over all pool indices to self.pools[index]", recv_ok, f, c,
                detail=f"loop: {stmt_text(lp) if lp else None}; receiver: {norm.U(c.func.value)}")
         if not recv_ok:
@@ -433,3 +439,7 @@ def run(ctx):
     # "a failure leaves a completed prefix followed by failed operators": kill() fails exactly the unfinished suffix (C02#6)
     c02.check_suffix_slices(ctx, 5)
     c02.check_op_idx(ctx, 5)
+    # "every container ends": a container whose demand exceeds its allocation stops making progress and is ended by the pool's killer —
+    # in every tick, for every such container, whatever the overcommit setting (C04#6)
+    from . import c04
+    c04.check_kills(Renumber(ctx, {5: 3, 6: 3, 7: 3}))
